@@ -1001,11 +1001,16 @@ class DateTime(datetime.datetime, Date):
         if day_of_week < WeekDay.MONDAY or day_of_week > WeekDay.SUNDAY:
             raise ValueError("Invalid day of week")
 
-        dt = self if keep_time else self.start_of("day")
+        origin = self if keep_time else self.start_of("day")
 
-        dt = dt.subtract(days=1)
-        while dt.day_of_week != day_of_week:
-            dt = dt.subtract(days=1)
+        # Each candidate is taken from the origin: where a whole day is missing
+        # in the timezone, going back one day from the day after it lands
+        # on that same day again and stepping from it would never end.
+        days = 1
+        dt = origin.subtract(days=days)
+        while dt.day_of_week != day_of_week or dt >= origin:
+            days += 1
+            dt = origin.subtract(days=days)
 
         # The day we started from may begin later than midnight
         return dt if keep_time else dt.start_of("day")
